@@ -55,7 +55,8 @@ template <class E, template <class, class, class> class Algo> void periodicSingl
     if (tbx::hashSymbolic(*pr.tree) != h0) res.fail("c06:symbolic-changed-by-execute", "periodic sequence");
     drainRec<D>(rc, res, std::string(tag) + ":");
     pr.reference(false, res, lo, hi);
-    pr.compare(res, std::string(tag) + ":poly-image-sum");
+    // a top tree run as several flagged calls must end like the one-call run, i.e. on the exact image sum: keyed apart, C12 judges it too
+    pr.compare(res, std::string(tag) + (topTreeStaged() ? ":staged-top-tree:poly-image-sum" : ":poly-image-sum"));
     res.ev("periodic-runs"); res.ev("image-pairs-checked", N * N * (hi - lo + 1));
     res.events["max-repetitions-per-dim"] = std::max<long long>(res.events["max-repetitions-per-dim"], hi - lo + 1);
 }
@@ -110,7 +111,7 @@ template <class E, template <class, class, class> class AlgoTsm = SeqAlgoTsm> vo
     }
     drainRec<D>(rc, res, std::string(tag) + ":");
     pr.reference(lo, hi);
-    pr.compare(res, std::string(tag) + ":poly-image-sum");
+    pr.compare(res, std::string(tag) + (topTreeStaged() ? ":staged-top-tree:poly-image-sum" : ":poly-image-sum"));
     res.ev("periodic-tsm-runs");
 }
 
